@@ -143,7 +143,7 @@ PSEUDO = ("ext-info-c", "ext-info-s", "kex-strict-c-v00@openssh.com",
           "kex-strict-s-v00@openssh.com")
 
 
-def negotiate(ckex, skex):
+def negotiate(ckex, skex, mac_needed_for_aead=False):
     """RFC 4253 7.1: first client name the server also lists, per category.
     Returns dict or raises TapError if some category has no match."""
     def first(cl, sl, what, skip=()):
@@ -159,7 +159,7 @@ def negotiate(ckex, skex):
     res["enc_c2s"] = first(ckex["enc_c2s"], skex["enc_c2s"], "enc_c2s")
     res["enc_s2c"] = first(ckex["enc_s2c"], skex["enc_s2c"], "enc_s2c")
     for d in ("c2s", "s2c"):
-        if CIPHERS.get(res["enc_" + d], ("",))[0] == "gcm":
+        if CIPHERS.get(res["enc_" + d], ("",))[0] == "gcm" and not mac_needed_for_aead:
             # AEAD: MAC negotiation result is irrelevant, but paramiko (like
             # OpenSSH) still negotiates one; do so leniently
             try:
@@ -204,6 +204,7 @@ class Direction:
         self.packets_epoch = 0
         self.compression_name = "none"
         self.delayed_comp_armed = False
+        self.on_packet = None
 
     def set_keys(self, cipher, mac, comp, key, iv, mackey, reset_seq, comp_now=True):
         kind, klen, ivlen, block = CIPHERS[cipher]
@@ -253,6 +254,8 @@ class Direction:
                 break
             out.append(p)
             self.packets.append(p)
+            if self.on_packet is not None:
+                self.on_packet(self, p)
             if p.payload and p.payload[0] == 21 and self.pending is not None:
                 ks = self.pending
                 self.pending = None
@@ -400,3 +403,87 @@ def keyset(neg, direction, K, H, session_id, role_letters=None, comp_now=True):
     else:
         mk = derive(K, H, session_id, mac_l, MACS[mac][1], hashname)
     return (cipher, mac, comp, key, iv, mk, neg.get("strict", False), comp_now)
+
+
+class HarnessError(Exception):
+    """The tap could not be keyed (a harness/seam problem, not a finding)."""
+
+
+class LinkTap:
+    """Passive observer of one Link: decodes both directions, re-keying itself
+    at every NEWKEYS from (K, H) captured at the transports' _set_K_H seam and
+    the KEXINIT payloads seen on the wire."""
+
+    def __init__(self, link, sim=None):
+        self.link = link
+        self.sim = sim
+        self.dirs = [Direction(), Direction()]     # 0: client->server, 1: server->client
+        for i, d in enumerate(self.dirs):
+            d.on_packet = (lambda dd, p, i=i: self._packet(i, p))
+        self.banner = [None, None]
+        self._pre = [bytearray(), bytearray()]
+        self.kexinits = [[], []]                   # parsed KEXINITs per direction
+        self.kexinit_raw = [[], []]
+        self.newkeys = [0, 0]
+        self.kh = {0: [], 1: []}                   # per side: list of (K, H) per exchange
+        self.session_id = None
+        self.negs = []
+        self.log = []                              # (dir, Packet) in wire order
+        self.auth_done = [False, False]            # per direction: sender is past auth
+        self.error = None
+        self.keysets = []                          # (exchange, direction, keyset tuple)
+        self.on_packet = None
+        self.agreed_kex = {0: [], 1: []}
+        link.on_segment = self._segment
+
+    # seams called by TapTransport
+    def note_kh(self, side, K, H):
+        self.kh[side].append((K, H))
+        if self.session_id is None:
+            self.session_id = H
+
+    def note_auth(self, side):
+        self.auth_done[side] = True
+        self.dirs[side].start_delayed_compression()
+
+    def _segment(self, link, d, data):
+        if self.error is not None:
+            return
+        if self.banner[d] is None:
+            self._pre[d] += data
+            nl = self._pre[d].find(b"\n")
+            if nl < 0:
+                return
+            self.banner[d] = bytes(self._pre[d][:nl]).rstrip(b"\r")
+            data = bytes(self._pre[d][nl + 1:])
+            if not data:
+                return
+        try:
+            self.dirs[d].feed(data)
+        except TapError as e:
+            self.error = (d, str(e))
+
+    def _packet(self, d, p):
+        self.log.append((d, p))
+        t = p.payload[0] if p.payload else None
+        if t == 20:
+            self.kexinits[d].append(parse_kexinit(p.payload))
+            self.kexinit_raw[d].append(p.payload)
+        elif t == 21:
+            ex = self.newkeys[d]
+            self.newkeys[d] += 1
+            if len(self.kexinits[0]) <= ex or len(self.kexinits[1]) <= ex:
+                raise HarnessError("NEWKEYS before both KEXINITs of exchange %d" % ex)
+            while len(self.negs) <= ex:
+                self.negs.append(negotiate(self.kexinits[0][len(self.negs)],
+                                           self.kexinits[1][len(self.negs)]))
+            neg = self.negs[ex]
+            if len(self.kh[d]) <= ex:
+                raise HarnessError("side %d sent NEWKEYS for exchange %d but no (K,H) was captured" % (d, ex))
+            K, H = self.kh[d][ex]
+            ks = keyset(neg, "c2s" if d == 0 else "s2c", K, H, self.session_id,
+                        comp_now=self.auth_done[d])
+            self.keysets.append((ex, d, ks))
+            self.dirs[d].pending = ks
+        if self.on_packet is not None:
+            self.on_packet(d, p)
